@@ -12,7 +12,8 @@ from harness.types_enum import enc, dec, LB
 
 INT, UINT, LONG, ULONG = (32, True), (32, False), (64, True), (64, False)
 BINOPS = ["+", "-", "*", "/", "%", "<<", ">>", "&", "|", "^"]
-ESC = {"n": 10, "t": 9, "r": 13, "0": 0, "a": 7, "b": 8, "f": 12, "v": 11, "\\": 92, "'": 39, '"': 34, "?": 63}
+ESC = {"n": 10, "t": 9, "r": 13, "0": 0, "a": 7, "b": 8, "f": 12, "v": 11, "\\": 92, "'": 39, '"': 34, "?": 63,
+       "1": 1, "2": 2, "3": 3, "4": 4, "5": 5, "6": 6, "7": 7}
 CTX_RANGE = {"array": (1, 2**31 - 1), "enum": (-2**63, 2**64 - 1), "bitfield": (1, 32),
              "define": (0, 2**64 - 1), "const": (-2**63, 2**64 - 1)}
 
